@@ -11,6 +11,8 @@ import subprocess
 import sys
 import tempfile
 
+HERE = os.path.dirname(os.path.dirname(os.path.abspath(__file__)))
+
 
 def run(patch, props, keep_out=False):
     tmp = tempfile.mkdtemp(prefix="mutrun-", dir="/tmp")
@@ -27,7 +29,7 @@ def run(patch, props, keep_out=False):
         env = dict(os.environ, VERIF_REPO=repo, VERIF_EVIDENCE_DIR=os.path.join(tmp, "evidence"), VERIF_REPLAY_DIR=os.path.join(tmp, "replays"))
         env.setdefault("VERIF_DET_SEEDS", "4")
         for prop in props:
-            r = subprocess.run(["/verif/check", prop, "--tier", os.environ.get("VERIF_TIER", "quick")], cwd="/verif", env=env, stdout=subprocess.PIPE, stderr=subprocess.STDOUT, timeout=3600)
+            r = subprocess.run([os.path.join(HERE, "check"), prop, "--tier", os.environ.get("VERIF_TIER", "quick")], cwd=HERE, env=env, stdout=subprocess.PIPE, stderr=subprocess.STDOUT, timeout=3600)
             out = r.stdout.decode("utf8", "replace")
             lines = [l for l in out.splitlines() if l.startswith(("VIOLATION", "  clause", "HARNESS", "KNOWN", "REACH")) or " quick:" in l or " thorough:" in l]
             results[prop] = (r.returncode, lines, out)
